@@ -558,4 +558,223 @@ theorem sideSyms_simple (row : InstrRow) {l : Str} (hstr : row.isStringDefine = 
 
 end
 
+/-! ### the element texts of FCB / FDB lists (batch 8)
+
+An element of an FCB / FDB list that is a symbol or an expression is evaluated from its TEXT (`evalElem`, `create 4 x false
+false true`). For an element of one of the shapes `SimpleLeft` that is not `A` / `B` / `D`, `renameLeftText` is a faithful
+renaming (`ElemRn`): `create` commutes (`create_renameLeft`), the renamed element is still evaluated (a renamed symbol is a
+symbol, `atom op atom` stays an expression, neither is a numeric literal), its symbols are `leftNames`. -/
+
+theorem opChar_not_hex {c : Char} (h : opChar c = true) : isHexD c = false ∧ isDigit c = false := by
+  simp only [opChar, Bool.or_eq_true, beq_iff_eq] at h
+  rcases h with ((rfl | rfl) | rfl) | rfl <;> decide
+
+/-- `atom op …` is not a numeric literal -/
+theorem numericOfStr_exprText {a : Str} (ha : AtomShape a) {op : Char} (hop : opChar op = true) (b : Str)
+    (hint : Option Nat) (m : Mode) : ∃ e, numericOfStr (a ++ op :: b) hint m = .error e := by
+  obtain ⟨c0, t0, e0, hc0⟩ := atomShape_head ha []
+  rw [List.append_nil] at e0
+  subst e0
+  have hne : c0 ≠ apos ∧ c0 ≠ '%' ∧ c0 ≠ '-' := by
+    rcases hc0 with h | rfl
+    · exact ⟨(isSym_ne h).1, (isSym_ne h).2.1, (isSym_ne h).2.2.2.1⟩
+    · decide
+  have hmem : op ∈ t0 ++ op :: b := by simp
+  have hx : (t0 ++ op :: b).all isHexD = false := by
+    cases h : (t0 ++ op :: b).all isHexD with
+    | false => rfl
+    | true =>
+      have := List.all_eq_true.mp h op hmem
+      rw [(opChar_not_hex hop).1] at this; cases this
+  have hd : (c0 :: (t0 ++ op :: b)).all isDigit = false := by
+    cases h : (c0 :: (t0 ++ op :: b)).all isDigit with
+    | false => rfl
+    | true =>
+      have := List.all_eq_true.mp h op (by simp)
+      rw [(opChar_not_hex hop).2] at this; cases this
+  show ∃ e, numericOfStr (c0 :: (t0 ++ op :: b)) hint m = .error e
+  unfold numericOfStr
+  simp only []
+  split
+  · rename_i v hc
+    split at hc
+    · rename_i q c heq
+      have : c0 = q := by injection heq
+      subst this
+      simp [hne.1] at hc
+    · simp at hc
+  · split
+    · rename_i heq; injection heq with e _; exact absurd e hne.2.1
+    · rename_i hs heq
+      injection heq with _ e
+      subst e
+      simp only [hx, Bool.and_false, Bool.false_eq_true, if_false]
+      exact ⟨_, rfl⟩
+    · rename_i heq; injection heq with e _; exact absurd e hne.2.2
+    · simp only [hd, Bool.and_false, Bool.false_eq_true, if_false]
+      exact ⟨_, rfl⟩
+
+theorem elemHex_err {x : Str} {e : Exn} (h : numericOfStr x none .none = .error e) (w : Nat) :
+    elemHex w x = .error e := by
+  unfold elemHex; rw [h]
+
+theorem pendingElem_of_create {R : Ren} {x x' : Str}
+    (hc : create 4 x' false false true = (create 4 x false false true).map (rnValue R)) :
+    pendingElem x' = pendingElem x := by
+  unfold pendingElem
+  rw [hc]
+  cases create 4 x false false true with
+  | error e => rfl
+  | ok v => simp only [Except.map, rnValue_isSymbol, rnValue_isExpression]
+
+/-- (1)–(3) for one element: `renameLeftText` is a faithful renaming of a simple element text -/
+theorem elemRn_simple (f : Str → Str) (R : Ren) (hR : R.sym = f) (N : List Str) {x : Str} (habd : isABD x = false)
+    (hs : SimpleLeft x = true) (hg : ∀ y ∈ leftNames x, GoodName y (f y)) (hN : ∀ y ∈ leftNames x, y ∈ N) (w : Nat) :
+    ElemRn R N w x (renameLeftText f x) := by
+  obtain ⟨hc, hsyms⟩ := create_renameLeft f R hR hs habd hg false true
+  refine ⟨?_, fun _ => ⟨hc, fun v hv y hy => hN y (by rw [← hsyms v hv]; exact hy)⟩⟩
+  unfold pendingAt
+  rw [pendingElem_of_create hc]
+  congr 1
+  by_cases hsym : isSymName x = true
+  · have hl : x ∈ leftNames x := by simp [leftNames, habd, hsym]
+    have e : renameLeftText f x = f x := by simp [renameLeftText, habd, hsym]
+    obtain ⟨e1, he1⟩ := numericOfStr_symName hsym none .none
+    obtain ⟨e2, he2⟩ := numericOfStr_symName (hg x hl).1 none .none
+    rw [e, elemHex_err he1, elemHex_err he2]
+  · have hsym' : isSymName x = false := by simpa using hsym
+    cases hsp : splitExpr x with
+    | none =>
+      have e : renameLeftText f x = x := by simp [renameLeftText, habd, hsym', hsp]
+      rw [e]
+    | some y =>
+      obtain ⟨a, op, b⟩ := y
+      obtain ⟨hl, hop⟩ := splitExpr_sound hsp
+      have hab := simpleLeft_expr hs habd hsym' hsp
+      have e : renameLeftText f x = rnAtom f a ++ op :: rnAtom f b := by simp [renameLeftText, habd, hsym', hsp]
+      have sa := (create_atom f R hR hab.1
+        (fun h => (hg a (by simp [leftNames, habd, hsym', hsp, h])).1) 2).2.2.1
+      obtain ⟨e1, he1⟩ := numericOfStr_exprText (atomShape_atomOK hab.1) hop b none .none
+      obtain ⟨e2, he2⟩ := numericOfStr_exprText sa hop (rnAtom f b) none .none
+      rw [← hl] at he1
+      rw [e, elemHex_err he1, elemHex_err he2]
+
+/-- the renaming of one element text of a list: an element that the list pass evaluates is renamed like an index left
+part, a literal is left alone -/
+def renameElemText (f : Str → Str) (x : Str) : Str := if pendingAny x then renameLeftText f x else x
+
+/-- what C18-R2 asks of a list element that the list pass evaluates: not `A` / `B` / `D` (which `renameLeftText` leaves
+alone), one of the shapes `SimpleLeft` (a symbol, `atom op atom`), the new names symbols again -/
+def ElemSimple (f : Str → Str) (x : Str) : Prop :=
+  pendingAny x = true → isABD x = false ∧ SimpleLeft x = true ∧ ∀ y ∈ leftNames x, GoodName y (f y)
+
+/-- the symbols of a list element that the list pass evaluates -/
+def elemNames (x : Str) : List Str := if pendingAny x then leftNames x else []
+
+theorem elemRn_renameElem (f : Str → Str) (R : Ren) (hR : R.sym = f) (N : List Str) {x : Str} (h : ElemSimple f x)
+    (hN : ∀ y ∈ elemNames x, y ∈ N) {w : Nat} (hw : w = 2 ∨ w = 4) : ElemRn R N w x (renameElemText f x) := by
+  cases hp : pendingAny x with
+  | false =>
+    have e : renameElemText f x = x := by simp [renameElemText, hp]
+    rw [e]
+    exact elemRn_refl N (pendingAny_false hp hw)
+  | true =>
+    have e : renameElemText f x = renameLeftText f x := by simp [renameElemText, hp]
+    obtain ⟨h1, h2, h3⟩ := h hp
+    rw [e]
+    exact elemRn_simple f R hR N h1 h2 h3 (fun y hy => hN y (by simp [elemNames, hp, hy])) w
+
+/-- a list text renamed element by element -/
+theorem listRn_simple (f : Str → Str) (R : Ren) (hR : R.sym = f) (N : List Str) {txt : Str}
+    (ht : listElems (R.txt txt) = (listElems txt).map (renameElemText f))
+    (h : ∀ x ∈ listElems txt, ElemSimple f x) (hN : ∀ x ∈ listElems txt, ∀ y ∈ elemNames x, y ∈ N) :
+    ListRn R N txt := by
+  unfold ListRn
+  rw [ht]
+  exact forall2_map_right _ _ (fun x hx =>
+    ⟨elemRn_renameElem f R hR N (h x hx) (hN x hx) (.inl rfl), elemRn_renameElem f R hR N (h x hx) (hN x hx) (.inr rfl)⟩)
+
+/-- a symbol is evaluated by the list pass at every width -/
+theorem pendingAt_symName {x : Str} (h : isSymName x = true) (w : Nat) : pendingAt w x = true := by
+  obtain ⟨e, he⟩ := numericOfStr_symName h none .none
+  unfold pendingAt pendingElem
+  rw [create_symName h 3 false true, elemHex_err he]
+  rfl
+
+/-- `atom op atom` is evaluated by the list pass at every width -/
+theorem pendingAt_exprText {x a b : Str} {op : Char} (hsp : splitExpr x = some (a, op, b)) (ha : atomOK a = true)
+    (hb : atomOK b = true) (w : Nat) : pendingAt w x = true := by
+  obtain ⟨hl, hop⟩ := splitExpr_sound hsp
+  obtain ⟨⟨lv, hlv⟩, _, _, _⟩ := create_atom (fun x => x) ⟨id, id, id⟩ rfl ha (fun h => h) 2
+  obtain ⟨⟨rv, hrv⟩, _, _, _⟩ := create_atom (fun x => x) ⟨id, id, id⟩ rfl hb (fun h => h) 2
+  obtain ⟨e, he⟩ := numericOfStr_exprText (atomShape_atomOK ha) hop b none .none
+  rw [← hl] at he
+  unfold pendingAt pendingElem
+  rw [elemHex_err he, hl, create_exprText (atomShape_atomOK ha) (atomShape_atomOK hb) hop 2 hlv hrv]
+  rfl
+
+/-- on the shapes `SimpleLeft`, a text that the list pass does not evaluate has no symbol in it: `renameElemText` is
+`renameLeftText` -/
+theorem renameElemText_simple (f : Str → Str) {x : Str} (hs : SimpleLeft x = true) :
+    renameElemText f x = renameLeftText f x := by
+  unfold renameElemText
+  cases hp : pendingAny x with
+  | true => rfl
+  | false =>
+    simp only [Bool.false_eq_true, if_false]
+    have hp2 := pendingAny_false hp (.inl rfl)
+    cases habd : isABD x with
+    | true => simp [renameLeftText, habd]
+    | false =>
+      cases hsym : isSymName x with
+      | true => rw [pendingAt_symName hsym] at hp2; cases hp2
+      | false =>
+        cases hsp : splitExpr x with
+        | none => simp [renameLeftText, habd, hsym, hsp]
+        | some y =>
+          obtain ⟨a, op, b⟩ := y
+          have hab := simpleLeft_expr hs habd hsym hsp
+          rw [pendingAt_exprText hsp hab.1 hab.2] at hp2; cases hp2
+
+theorem map_renameElem_simple (f : Str → Str) {xs : List Str} (h : ∀ x ∈ xs, SimpleLeft x = true) :
+    xs.map (renameElemText f) = xs.map (renameLeftText f) :=
+  List.map_congr_left (fun x hx => renameElemText_simple f (h x hx))
+
+/-- a list of literals: nothing is renamed -/
+theorem map_renameElem_lit (f : Str → Str) {txt : Str} (h : litElems txt = true) :
+    (listElems txt).map (renameElemText f) = listElems txt := by
+  have : ∀ x ∈ listElems txt, renameElemText f x = id x := by
+    intro x hx; simp [renameElemText, litElems_any h x hx]
+  rw [List.map_congr_left this, List.map_id]
+
+/-- the symbols of the elements of the FCB / FDB lists that the list pass evaluates -/
+def listNames (ss : List Stmt) : List Str :=
+  match preLists ss with
+  | none => []
+  | some x => x.flatMap (fun s => if isList s.pkg.additional then (listElems s.operand.text).flatMap elemNames else [])
+
+theorem mem_listNames {ss x : List Stmt} (hx : preLists ss = some x) {s : Stmt} (hs : s ∈ x)
+    (hl : isList s.pkg.additional = true) {e : Str} (he : e ∈ listElems s.operand.text) {y : Str} (hy : y ∈ elemNames e) :
+    y ∈ listNames ss := by
+  unfold listNames
+  rw [hx]
+  exact List.mem_flatMap.mpr ⟨s, hs, by rw [if_pos hl]; exact List.mem_flatMap.mpr ⟨e, he, hy⟩⟩
+
+/-- with lists of literals there is no such symbol -/
+theorem listNames_lit {ss : List Stmt}
+    (h : ∀ x, preLists ss = some x → ∀ s ∈ x, isList s.pkg.additional = true → litElems s.operand.text = true) :
+    ∀ y, y ∉ listNames ss := by
+  intro y hy
+  unfold listNames at hy
+  cases hx : preLists ss with
+  | none => rw [hx] at hy; cases hy
+  | some x =>
+    rw [hx] at hy
+    obtain ⟨s, hs, hy⟩ := List.mem_flatMap.mp hy
+    by_cases hl : isList s.pkg.additional = true
+    · rw [if_pos hl] at hy
+      obtain ⟨e, he, hy⟩ := List.mem_flatMap.mp hy
+      simp [elemNames, litElems_any (h x hx s hs hl) e he] at hy
+    · rw [if_neg hl] at hy; cases hy
+
 end CoCo.Asm.Rename
